@@ -125,7 +125,7 @@ def untup(v, n):
 
 # ---- encoder ---------------------------------------------------------------------
 class Marks(object):
-    """length fields seen while encoding: (offset, width, body_start, body_end, path)"""
+    """length and tag fields seen while encoding: (offset, width, body_start, body_end, site, 'len'|'tag')"""
 
     def __init__(self):
         self.fields = []
@@ -172,7 +172,7 @@ def enc(f, v, marks=None, base=0):
         hdr = be(len(body), ll)
         if marks is not None:
             marks.fields[idx] = (base, ll, base + ll, base + ll + len(body),
-                                 marks.stack[-1] if marks.stack else None)
+                                 marks.stack[-1] if marks.stack else None, 'len')
         return hdr + body
     if k == 'Rep':
         if not isinstance(v, list):
@@ -194,13 +194,23 @@ def enc(f, v, marks=None, base=0):
             raise NoFit('shape')
         a = be(v.t, f[1])
         lab = f[4] if len(f) > 4 else None
-        if marks is not None and lab:
-            marks.stack.append((lab, v.t))
+        idx = None
+        if marks is not None:
+            idx = len(marks.fields)
+            marks.fields.append(None)
+            if lab:
+                marks.stack.append((lab, v.t))
         try:
-            return a + enc(f[2](v.t), v.v, marks, base + len(a))
+            body = enc(f[2](v.t), v.v, marks, base + len(a))
         finally:
             if marks is not None and lab:
                 marks.stack.pop()
+        if marks is not None:
+            # a tag steers the parse of what follows (extension type, layout version, SSLv2 length words):
+            # recorded so that it is perturbed like a length field
+            marks.fields[idx] = (base, f[1], base + len(a), base + len(a) + len(body),
+                                 marks.stack[-1] if marks.stack else None, 'tag')
+        return a + body
     raise AssertionError(k)
 
 
